@@ -210,6 +210,27 @@ fn engine_mode(scen_path: &str, logp: &str, db: &str) {
         }
     }
     let _ = nreq;
+    // sessions whose end depends on one another (a lock held by the other session of the same file, say): after its input ended this
+    // engine can only finish once its peer - the other engine started for the same database - has seen the end of ITS input
+    for r in &rules {
+        let hit = r.get("start_db_prefix").and_then(|p| p.as_str()).map(|p| db.starts_with(p)).unwrap_or(false);
+        if let (true, Some(role)) = (hit, r.get("eof_wait_peer").and_then(|m| m.as_str())) {
+            let lines = |text: &str| -> Vec<Value> { text.lines().filter_map(|l| serde_json::from_str::<Value>(l).ok()).collect() };
+            let log_now = std::fs::read_to_string(logp).unwrap_or_default();
+            let starts: Vec<u64> = lines(&log_now).iter().filter(|e| e["ev"] == "START" && e["db"] == db).filter_map(|e| e["pid"].as_u64()).collect();
+            let i_am_first = starts.first().copied() == Some(pid as u64);
+            if (role == "first") == i_am_first && starts.len() >= 2 {
+                for _ in 0..7500 {
+                    let t = std::fs::read_to_string(logp).unwrap_or_default();
+                    let peer_done = lines(&t).iter().any(|e| (e["ev"] == "EOF" || e["ev"] == "EXIT") && e["db"] == db && e["pid"].as_u64() != Some(pid as u64));
+                    if peer_done {
+                        break;
+                    }
+                    sleep_ms(20);
+                }
+            }
+        }
+    }
     // an engine that needs time to wind down after its input ended (it stays connected to its database until it exits)
     for r in &rules {
         let hit = r.get("start_db_prefix").and_then(|p| p.as_str()).map(|p| db.starts_with(p)).unwrap_or(false);
